@@ -139,6 +139,7 @@ func cmdCheck(args []string) {
 	tier := fs.String("tier", "quick", "quick|thorough")
 	repo := fs.String("repo", "/repo", "repository")
 	noEvidence := fs.Bool("no-evidence", false, "do not write the evidence file (self-test runs)")
+	replayDirFlag := fs.String("replay-dir", "", "directory for replay files (default <root>/replays/<id>)")
 	fs.Parse(args)
 	root := verifRoot()
 	t0 := time.Now()
@@ -354,6 +355,9 @@ func cmdCheck(args []string) {
 	var knownHit []string
 	exit := 0
 	replayDir := filepath.Join(root, "replays", *prop)
+	if *replayDirFlag != "" {
+		replayDir = *replayDirFlag
+	}
 	for _, o := range failed {
 		r := results[o]
 		isKnown := false
